@@ -568,3 +568,99 @@ Theorem C18_species_view_coefficients_invisible : exists n n' : net,
   view false true n = view false true n' /\ view_spS n <> view_spS n'.
 Proof. exact species_view_coefficients_invisible. Qed.
 Print Assumptions C18_species_view_coefficients_invisible.
+
+(** ======================= round 6: the label of a selection read back (proof/C18_LabelA.v) =======================
+    Domain D of the full theorems below: BIPARTITE-view selections with node keys from kind / bipartite / absent keys (no 'label':
+    names may contain '|' or ':'), at least one of kind / bipartite selected (otherwise every node piece of the label is empty),
+    any edge keys, on a view without self-loops ([_label] skips i = j; every bipartite view of a network without a view-id collision
+    is loop-free: C18_net_attr_count_exact needs no such premise).  Outside D the four _partial theorems above remain what is proved;
+    what is missing there is (i) recovering self-loops from the refinement signature for selections (the analogue of loop_from_key;
+    needed for species views with catalysts), (ii) a parse of labels whose node pieces are empty, (iii) nothing can be done for 'label'. *)
+From SK Require Import proof.C18_LabelA proof.C18_LabelA_Examples.
+
+(** label_read for labelA: the label determines, position by position, the selected node attributes and, for distinct positions,
+    presence and selected attributes of the arcs. *)
+Theorem C18_labelA_read : forall (g : vgraph) (t : ltab) (nk : list nsel) (ek : list esel) (p q : list N),
+  wf g -> kinds_ok g -> arcs_ok g -> Forall (fun x => x <> NLabel) nk -> (In NKind nk \/ In NBip nk) ->
+  incl p (node_ids g) -> incl q (node_ids g) -> labelA g t nk ek p = labelA g t nk ek q ->
+  length p = length q /\
+  (forall i, i < length p -> map (nval g t (nth i p 0%N)) nk = map (nval g t (nth i q 0%N)) nk) /\
+  (forall i j, i < length p -> j < length p -> i <> j ->
+     option_map (fun a => map (eval a) ek) (find_arc g (nth i p 0%N) (nth j p 0%N))
+     = option_map (fun a => map (eval a) ek) (find_arc g (nth i q 0%N) (nth j q 0%N))).
+Proof. exact labelA_read. Qed.
+Print Assumptions C18_labelA_read.
+
+(** Clause 4, count, IN FULL on D (replaces C18_attr_count_lower_partial there): the minimal leaves are a duplicate-free list of
+    exactly the images of the best permutation under the self-maps that preserve the selected attributes. *)
+Theorem C18_attr_count_exact : forall (g : vgraph) (t : ltab) (nk : list nsel) (ek : list esel) (lab p : list N),
+  wf g -> kinds_ok g -> arcs_ok g -> Forall (fun x => x <> NLabel) nk -> (In NKind nk \/ In NBip nk) ->
+  (forall v, find_arc g v v = None) -> fst (canon_searchA g t nk ek) = Some (lab, p) ->
+  NoDup (snd (canon_searchA g t nk ek)) /\
+  forall q, In q (snd (canon_searchA g t nk ek)) <->
+            exists s, is_autG g (fun v => map (nval g t v) nk) (fun a => map (eval a) ek) s /\ q = map s p.
+Proof. exact (fun g t nk ek lab p Hw Hk Ha Hnl Hne => attr_count_exact g t nk ek Hw Hk Ha Hnl Hne lab p). Qed.
+Print Assumptions C18_attr_count_exact.
+
+(** Clause 4, orbits, IN FULL on D: two nodes share a reported orbit set iff some self-map preserving the selected attributes sends
+    one to the other (the slot-based union-find proofs of C18_orbits are generic in the group). *)
+Theorem C18_attr_orbits_exact : forall (g : vgraph) (t : ltab) (nk : list nsel) (ek : list esel) (lab p : list N),
+  wf g -> kinds_ok g -> arcs_ok g -> Forall (fun x => x <> NLabel) nk -> (In NKind nk \/ In NBip nk) ->
+  (forall v, find_arc g v v = None) -> fst (canon_searchA g t nk ek) = Some (lab, p) ->
+  forall u v, In u (node_ids g) ->
+    ((exists c, In c (orbits_from_perms (snd (canon_searchA g t nk ek))) /\ In u c /\ In v c) <->
+     (exists s, is_autG g (fun v => map (nval g t v) nk) (fun a => map (eval a) ek) s /\ s u = v)).
+Proof. exact attr_orbits_exact. Qed.
+Print Assumptions C18_attr_orbits_exact.
+
+(** Clause 2 IN FULL on D (replaces C18_attr_invariant_partial there).  The canonical graphs of a renamed, re-presented view agree
+    ON THE SELECTED ATTRIBUTES ([canon_nodesG]: canonical id with the selected node attributes, [canon_arcsG]: canonical arc with the
+    selected edge attributes).  Identity of the full attribute graphs is false for reduced selections: which of several minimal
+    leaves is found first depends on the names, and they differ by self-maps that preserve only the selected attributes. *)
+Theorem C18_attr_invariant_full : forall (f : N -> N), (forall x y, f x = f y -> x = y) ->
+  forall (g g' : vgraph) (t : ltab) (nk : list nsel) (ek : list esel) (lab p lab' p' : list N),
+  wf g -> kinds_ok g -> arcs_ok g -> Forall (fun x => x <> NLabel) nk -> (In NKind nk \/ In NBip nk) ->
+  (forall v, find_arc g v v = None) -> geq g' (relabel f g) ->
+  fst (canon_searchA g t nk ek) = Some (lab, p) -> fst (canon_searchA g' (relab_tab f t) nk ek) = Some (lab', p') ->
+  lab' = lab /\
+  Permutation (canon_nodesG g' (fun v => map (nval g' (relab_tab f t) v) nk) p') (canon_nodesG g (fun v => map (nval g t v) nk) p) /\
+  Permutation (canon_arcsG g' (fun a => map (eval a) ek) p') (canon_arcsG g (fun a => map (eval a) ek) p).
+Proof. exact (fun f fi g g' t nk ek lab p lab' p' => attr_invariant_full f fi g g' t nk ek lab p lab' p'). Qed.
+Print Assumptions C18_attr_invariant_full.
+
+(** On NETWORKS: the bipartite view of a network without a view-id collision is loop-free, so clause 4 (count) holds in full for every
+    such selection without a premise on the view. *)
+Theorem C18_net_attr_count_exact : forall (st : bool) (n : net) (t : ltab) (nk : list nsel) (ek : list esel) (lab p : list N),
+  net_ok st n -> (forall r, In r (nrxns n) -> forall sc, In sc (lhs r ++ rhs r) -> (0 < snd sc)%Z) ->
+  Forall (fun x => x <> NLabel) nk -> (In NKind nk \/ In NBip nk) ->
+  fst (canon_searchA (view true st n) t nk ek) = Some (lab, p) ->
+  NoDup (snd (canon_searchA (view true st n) t nk ek)) /\
+  forall q, In q (snd (canon_searchA (view true st n) t nk ek)) <->
+            exists s, is_autG (view true st n) (fun v => map (nval (view true st n) t v) nk) (fun a => map (eval a) ek) s /\ q = map s p.
+Proof. exact net_attr_count_exact. Qed.
+Print Assumptions C18_net_attr_count_exact.
+
+(** Species-view selections (aggregates stoich_r / stoich_p): clause 4 (count) in full on LOOP-FREE species views with coefficients
+    >= -1 ([arcsS_ok]).  Species views with catalysts / null steps have self-loops: there C18_spattr_count_lower_partial and
+    C18_spattr_invariant_partial remain what is proved (missing: (i) above). *)
+Theorem C18_spattr_count_exact : forall (g : vgraph) (t : ltab) (nk : list nsel) (ek : list sesel) (lab p : list N),
+  wf g -> kinds_ok g -> arcsS_ok g -> Forall (fun x => x <> NLabel) nk -> (In NKind nk \/ In NBip nk) ->
+  (forall v, find_arc g v v = None) -> fst (canon_searchS g t nk ek) = Some (lab, p) ->
+  NoDup (snd (canon_searchS g t nk ek)) /\
+  forall q, In q (snd (canon_searchS g t nk ek)) <->
+            exists s, is_autG g (fun v => map (nval g t v) nk) (fun a => map (evalS a) ek) s /\ q = map s p.
+Proof. exact (fun g t nk ek lab p Hw Hk Ha Hnl Hne => spattr_count_exact g t nk ek Hw Hk Ha Hnl Hne lab p). Qed.
+Print Assumptions C18_spattr_count_exact.
+
+(** ... and clause 2 in full for the species-view selections on loop-free species views: same minimal label, same canonical graph on
+    the selected attributes. *)
+Theorem C18_spattr_invariant_full : forall (f : N -> N), (forall x y, f x = f y -> x = y) ->
+  forall (g g' : vgraph) (t : ltab) (nk : list nsel) (ek : list sesel) (lab p lab' p' : list N),
+  wf g -> kinds_ok g -> arcsS_ok g -> Forall (fun x => x <> NLabel) nk -> (In NKind nk \/ In NBip nk) ->
+  (forall v, find_arc g v v = None) -> geq g' (relabel f g) ->
+  fst (canon_searchS g t nk ek) = Some (lab, p) -> fst (canon_searchS g' (relab_tab f t) nk ek) = Some (lab', p') ->
+  lab' = lab /\
+  Permutation (canon_nodesG g' (fun v => map (nval g' (relab_tab f t) v) nk) p') (canon_nodesG g (fun v => map (nval g t v) nk) p) /\
+  Permutation (canon_arcsG g' (fun a => map (evalS a) ek) p') (canon_arcsG g (fun a => map (evalS a) ek) p).
+Proof. exact (fun f fi g g' t nk ek lab p lab' p' => spattr_invariant_full f fi g g' t nk ek lab p lab' p'). Qed.
+Print Assumptions C18_spattr_invariant_full.
